@@ -1275,3 +1275,60 @@ def must_pass(body, sites, edges, start=0):
         if s in seen:
             bad.append((s, body.path_to(seen, s)))
     return bad
+
+
+def simplify(node, _memo=None):
+    """drop 'after' (possibly-modified-by-call) markers and collapse phis whose alternatives become
+    identical; transparent wrappers (ref/deref/named) are removed.  Used by value-shape rules, which
+    compare *which expression* is stored, not whether a callee may have changed a field in between."""
+    if _memo is None:
+        _memo = {}
+    if not isinstance(node, tuple) or not node:
+        return node
+    k = id(node)
+    if k in _memo:
+        return _memo[k]
+    t = node[0]
+    if t in ('after',):
+        r = simplify(node[1], _memo)
+    elif t in ('ref', 'deref'):
+        r = simplify(node[1], _memo)
+    elif t == 'named':
+        r = simplify(node[2], _memo)
+    elif t == 'phi':
+        al = []
+        for a in node[1]:
+            s = simplify(a, _memo)
+            if s[0] == 'phi':
+                for x in s[1]:
+                    if x not in al:
+                        al.append(x)
+            elif s not in al:
+                al.append(s)
+        r = al[0] if len(al) == 1 else ('phi', tuple(al))
+    elif t == 'bin':
+        r = ('bin', node[1], simplify(node[2], _memo), simplify(node[3], _memo))
+    elif t == 'un':
+        r = ('un', node[1], simplify(node[2], _memo))
+    elif t == 'cast':
+        r = ('cast', simplify(node[1], _memo), node[2])
+    elif t in ('discr', 'len'):
+        r = (t, simplify(node[1], _memo))
+    elif t == 'call':
+        r = ('call', node[1], tuple(simplify(a, _memo) for a in node[2]))
+    elif t == 'callv':
+        r = ('callv', simplify(node[1], _memo), tuple(simplify(a, _memo) for a in node[2]))
+    elif t == 'agg':
+        r = (node[0], node[1], tuple(simplify(a, _memo) for a in node[2])) + tuple(node[3:])
+    elif t == 'proj':
+        inner = simplify(node[1], _memo)
+        if inner[0] == 'field':
+            r = ('field', inner[1], tuple(inner[2]) + tuple(node[2]))
+        elif inner[0] == 'phi':
+            r = simplify(('phi', tuple(('proj', x, node[2]) for x in inner[1])), _memo)
+        else:
+            r = ('proj', inner, node[2])
+    else:
+        r = node
+    _memo[k] = r
+    return r
